@@ -29,7 +29,7 @@ func (c04) Cases(tier string) int {
 }
 
 func (c04) Rule() string {
-	return "federated stream biased towards `id` (plain, aliased `x9: id`, absent) at join points; half of the cases inject failures into 1-3 service calls; checked per case: (L1) the plan's FieldsToScrub[\"id\"] equals the Lean model's scrub paths computed from the parsed client operation and the plan's insertion points; (L0) without errors every response object has exactly the monolith's key set at its position, with errors no object has a key the monolith's object lacks; non-trivial = at least one dependent step; distinct = distinct (federation, query, faults)"
+	return "federated stream biased towards `id` (plain, aliased `x9: id`, absent) at join points; half of the cases inject failures into 1-3 service calls; checked per case: (L1) the plan's FieldsToScrub[\"id\"] equals the Lean model's scrub paths computed from the parsed client operation and the plan's insertion points; (L0) without errors every response object has exactly the monolith's key set at its position, with errors no object has a key the monolith's object lacks; non-trivial = at least one dependent step; distinct = distinct (federation, query, faults); every tenth case a sequence of four requests on a caching gateway (three without a hash, the fourth with the key its text was stored under)"
 }
 
 func serPlanSteps(steps []*gateway.QueryPlanStep) []interface{} {
